@@ -139,9 +139,10 @@ class ParameterTable:
             self._data.append( settings )
         else:
             key, values = args
+            # the record is built first: values that are refused must not leave a key without a record behind
+            settings = ParameterSettings(dict(zip(self._settings, values)))
             if key not in self._keys:
                 self._keys.append(key)
-            settings = ParameterSettings(dict(zip(self._settings, values)))
             self._data[key] = settings
         
     def data(self):
